@@ -154,6 +154,60 @@ func runC07Extra2(c *vh.Ctx) {
 			}
 		}
 	}
+	// ---- a second source read while main records are still buffered; re-reading an exhausted source --------------------
+	for k := 0; k < c.N(6, 40); k++ {
+		md, ml := func() ([]byte, []string) {
+			var b bytes.Buffer
+			var ls []string
+			for i := 0; i < 5+c.Rng.Intn(40); i++ {
+				l := fmt.Sprintf("main %03d %s", i, strings.Repeat("m", c.Rng.Intn(20)))
+				ls = append(ls, l)
+				b.WriteString(l + "\n")
+			}
+			return b.Bytes(), ls
+		}()
+		mf := filepath.Join(dir, fmt.Sprintf("main%d", k))
+		os.WriteFile(mf, md, 0o644)
+		side := fmt.Sprintf("s1;s2;;s3 %d", k)
+		sf := filepath.Join(dir, fmt.Sprintf("side%d", k))
+		os.WriteFile(sf, []byte(side), 0o644)
+		stdinText := "yes please, go ahead\nsecond answer\n"
+		// (a) getline < "-" on records 1 and 3 while the main input is a file operand
+		res := vh.ExecProg(vh.MustParse(`NR==1 || NR==3 { r = (getline answer < "-"); print "A", r, answer } { print NR, FNR, $0 }`),
+			&interp.Config{Stdin: strings.NewReader(stdinText), Args: []string{mf}})
+		var want strings.Builder
+		for i, l := range ml {
+			if i == 0 {
+				want.WriteString("A 1 yes please, go ahead\n")
+			}
+			if i == 2 {
+				want.WriteString("A 1 second answer\n")
+			}
+			fmt.Fprintf(&want, "%d %d %s\n", i+1, i+1, l)
+		}
+		c.Eval(fmt.Sprintf("dash|%d", k), true)
+		c.OracleCase()
+		c.Hit("stream:stdin-beside-file")
+		if res.Out != want.String() || res.Err != "" || res.Panic != "" {
+			c.Fail(vh.Failure{Kind: "oracle", What: "records of the file operand are not its lines when `getline < \"-\"` reads standard input in between",
+				Case: map[string]interface{}{"stream": "stdin-beside-file", "main_lines": len(ml)}, Got: fmt.Sprintf("%q err=%q", res.Out[:min(300, len(res.Out))], res.Err), Want: fmt.Sprintf("%q", want.String()[:min(300, want.Len())])})
+		}
+		// (b) read a side file to its end with getline on every main record, without close(): only the first pass sees records
+		res = vh.ExecProg(vh.MustParse(`{ n = 0; seen = ""; while ((getline l < F) > 0) { n++; seen = seen l RT } print NR, n, seen }`),
+			&interp.Config{Stdin: strings.NewReader("r1\nr2\nr3\n"), Vars: []string{"F", sf, "RS", "\n"}})
+		// the side file is read with RS="\n": one record (no newline in it)
+		wantB := fmt.Sprintf("1 1 %s\n2 0 \n3 0 \n", side)
+		c.Eval(fmt.Sprintf("reread|%d", k), true)
+		c.OracleCase()
+		c.Hit("stream:reread-exhausted")
+		got := res.Out
+		// RT for the getline path is not part of the claim: compare with RT stripped (it is RS or empty)
+		got = strings.ReplaceAll(got, side+"\n\n", side+"\n")
+		if got != wantB || res.Err != "" || res.Panic != "" {
+			c.Fail(vh.Failure{Kind: "oracle", What: "an exhausted getline source delivers records again without close() (or not all of them the first time)",
+				Case: map[string]interface{}{"stream": "reread-exhausted", "side": side}, Got: fmt.Sprintf("%q err=%q", res.Out, res.Err), Want: fmt.Sprintf("%q", wantB)})
+		}
+	}
 	// ---- RS assigned by an operand between two files ---------------------------------------------------------------
 	seps := []string{"\n", ";", "|", "ab", "\r?\n"}
 	for k := 0; k < c.N(60, 600); k++ {
